@@ -836,7 +836,7 @@ def gen_C04(g, tier):
         k = r.randrange(0, 4)
         ws = [g.value("text", g.text("text", 8)) if r.random() < 0.7 else r.randrange(1 << 64) for _ in range(k)]
         wtxt = " ".join(map(str, ws))
-        for q in ("show", "raw", "showv", "hashv"):
+        for q in ("show", "raw", "showv"):
             lines.append(f"text {q} vecwords {k} {wtxt}".rstrip())
         if k == 1:
             lines.append(f"text usizev vecwords {k} {wtxt}")
